@@ -41,6 +41,7 @@ SEQ_PREDS = ['nonempty', 'len_lt2']
 
 
 build.LAMBDAS['spawn'] = build.NamedFn('spawn', iter_ref.spawn)
+build.LAMBDAS['fail3'] = build.NamedFn('fail3', iter_ref.fail3)
 
 
 def budget(tier):
@@ -129,9 +130,24 @@ def gen_case(seed, tier):
         # when it is what the SUBSPEC yields for an element, e.g. 'inc' turns -1 into 0 and goes on)
         lo = -1 if chain['sentinel'] == -1 and rng.random() < 0.5 else 0
         sources.append({'items': [rng.randint(lo, 9) for _ in range(rng.randint(0 if not inf else 1, 12))], 'inf': inf})
-    mode = rng.choice(['prefix', 'prefix', 'alternate', 'builder', 'builder', 'fault', 'abandon', 'invoke'])
+    mode = rng.choice(['prefix', 'prefix', 'alternate', 'builder', 'builder', 'fault', 'abandon', 'invoke', 'resume'])
     case = {'prop': PROP, 'seed': seed, 'knobs': simrun.draw_knobs(rng), 'chain': chain, 'sources': sources,
             'mode': mode}
+    if mode in ('prefix', 'alternate', 'abandon') and chain['kind'] == 'int' and rng.random() < 0.12:
+        # two map stages in a row, the first of which yields glom's SKIP / STOP: a map stage hands on
+        # whatever its function returns (only the Iter's own subspec interprets SKIP / STOP)
+        chain['stages'] += [['map', rng.choice(['skip_odd', 'stop_ge5'])], ['map', 'ident']]
+        if chain['terminal'] and chain['terminal'][0] == 'first':
+            chain['terminal'] = None
+    if mode == 'resume':
+        # a stage function that fails on one element; the consumer catches the error and goes on
+        kinds = ['int']
+        for st_ in chain['stages']:
+            kinds.append(_kind_after(st_, kinds[-1]))
+        pos = rng.choice([i for i, kd in enumerate(kinds) if kd == 'int'])
+        chain['stages'].insert(pos, [rng.choice(['map', 'map', 'filter']), 'fail3'])
+        chain['terminal'] = None
+        case['k'] = rng.randint(3, 14)
     if mode == 'alternate':
         case['order'] = [rng.randint(0, 1) for _ in range(rng.randint(4, 16))]
         case['chain']['terminal'] = None
@@ -295,6 +311,8 @@ def run_case(case):
             _mode_fault(case, V, st, digests)
         elif mode == 'abandon':
             _mode_abandon(case, V, st, digests)
+        elif mode == 'resume':
+            _mode_resume(case, V, st, digests)
         else:
             _mode_invoke(case, V, st, digests)
     except SimBudgetExceeded:
@@ -309,8 +327,60 @@ def run_case(case):
     return {'violations': viols, 'digest': d, 'stats': stats, 'shape': shape, 'nontrivial': nontrivial}
 
 
+def _unsentinel(x):
+    if type(x).__name__ == 'Sentinel':
+        return x.name               # glom's SKIP / STOP objects <-> the reference's marker strings
+    if type(x) in (list, tuple):
+        return type(x)(_unsentinel(y) for y in x)
+    return x
+
+
 def _norm(x):
-    return canon.canon(x)
+    return canon.canon(_unsentinel(x))
+
+
+def _pull_resume(it, k):
+    out = []
+    for _ in range(k):
+        try:
+            out.append(['v', next(it)])
+        except StopIteration:
+            out.append(['end'])
+            break
+        except Exception as e:
+            out.append(['e', type(e).__name__])
+    return out
+
+
+def _mode_resume(case, V, st, digests):
+    chain = case['chain']
+    src = case['sources'][0]
+    k = case['k']
+    c = iter_ref.Counting(src['items'], src['inf'], limit=REF_LIMIT)
+    try:
+        ref = _pull_resume(iter_ref.pipeline(c, chain['sub'], chain['sentinel'], chain['stages']), k)
+    except RuntimeError:
+        st('reference_budget_skip')
+        return
+    except ValueError:
+        st('stage_pulls_at_construction_skip')      # (windowed_iter reads ahead while the pipeline is built)
+        return
+    if any(r[0] == 'e' and r[1] == 'RuntimeError' for r in ref):
+        st('reference_budget_skip')
+        return
+    W = World(case)
+    s = W.source(src)
+    spec = W.B.spec(spec_recipe(chain, terminal=None))
+    res = W.k.run_single(lambda: _pull_resume(iter(W.G.glom(s, spec)), k))
+    digests.append(W.k.digest())
+    st('evaluations')
+    st('consumer_steps', k)
+    if any(r[0] == 'e' for r in ref):
+        st('reach.consumer_resumed_after_error')
+    if res[0] != 'ok':
+        V('outputs', 'resume-raised', _norm(ref), canon.outcome(res, with_text=False))
+    elif _norm(res[1]) != _norm(ref):
+        V('outputs', 'after-a-stage-error-the-stream-goes-on', _norm(ref), _norm(res[1]))
 
 
 def _mode_prefix(case, V, st, digests):
